@@ -251,7 +251,165 @@ Section FTP.
     destruct (get N.eqb (rc s) (rh r)) as [[n uw]|]; [|constructor].
     constructor; [|constructor]. apply N.eqb_neq in En. pose proof (nrows_with_le k rows). lia.
   Qed.
+  (* ---------- index maintenance: inserting a row with a fresh hash and key keeps the index in sync ---------- *)
+  Definition all_short (u : list (list N * list N * N)) : Prop := forall e, In e u -> short rlen e = true.
+
+  Lemma get_upd_glob_inc g k k' :
+    get leqb (upd_glob g k true) k' =
+    if leqb k' k then Some (match get leqb g k with Some c => c + 1 | None => 1 end) else get leqb g k'.
+  Proof.
+    unfold upd_glob. destruct (leqb k' k) eqn:E.
+    - apply leqb_spec in E. subst k'. destruct (get leqb g k); apply (get_set_same leqb leqb_spec).
+    - assert (k' <> k) as Hn by (intros ->; rewrite leqb_refl in E; discriminate).
+      destruct (get leqb g k); apply (get_set_other leqb leqb_spec); assumption.
+  Qed.
+
+  Lemma fold_inc u : nodupk u -> all_short u -> forall g k,
+    get leqb (fold_left (fun g e => if short rlen e then upd_glob g (snd (fst e)) true else g) u g) k =
+    if kin k u then Some (match get leqb g k with Some c => c + 1 | None => 1 end) else get leqb g k.
+  Proof.
+    induction u as [|e u IH]; intros Hnd Hs g k; [reflexivity|].
+    cbn [fold_left]. rewrite (Hs e (or_introl eq_refl)).
+    inversion Hnd as [|? ? Hne Hnd']; subst.
+    rewrite IH; [|assumption|intros x Hx; apply Hs; now right].
+    cbn [kin existsb]. fold (kin k u). rewrite get_upd_glob_inc. change (snd (fst e)) with (ekey e).
+    destruct (leqb k (ekey e)) eqn:E; cbn [orb].
+    - apply leqb_spec in E. subst k.
+      destruct (kin (ekey e) u) eqn:K; [apply kin_in in K; contradiction|reflexivity].
+    - reflexivity.
+  Qed.
+
+  Lemma fold_doc_ins key u : nodupk u -> all_short u -> forall d,
+    (forall e, In e u -> get dkeqb d (ekey e, key) = None) ->
+    forall k key',
+    get dkeqb (fold_left (fun d e => if short rlen e then
+                                      match get dkeqb d (snd (fst e), key) with
+                                      | None => set dkeqb d (snd (fst e), key) (snd e)
+                                      | Some _ => d
+                                      end else d) u d) (k, key') =
+    if (key' =? key) && kin k u then ucnt k u else get dkeqb d (k, key').
+  Proof.
+    induction u as [|e u IH]; intros Hnd Hs d Hfresh k key'.
+    - cbn. now rewrite andb_false_r.
+    - cbn [fold_left]. rewrite (Hs e (or_introl eq_refl)).
+      inversion Hnd as [|? ? Hne Hnd']; subst.
+      change (snd (fst e)) with (ekey e). rewrite (Hfresh e (or_introl eq_refl)).
+      rewrite IH; [|assumption|intros x Hx; apply Hs; now right|].
+      + cbn [kin existsb]. fold (kin k u). unfold ucnt. cbn [find].
+        destruct (leqb k (ekey e)) eqn:E; cbn [orb].
+        * apply leqb_spec in E. subst k.
+          assert (kin (ekey e) u = false) as K
+              by (destruct (kin (ekey e) u) eqn:K; [apply kin_in in K; contradiction|reflexivity]).
+          rewrite K, andb_false_r, andb_true_r.
+          destruct (key' =? key) eqn:Ek.
+          -- apply N.eqb_eq in Ek. subst key'. apply (get_set_same dkeqb dkeqb_spec).
+          -- apply (get_set_other dkeqb dkeqb_spec). intros H. injection H as H. subst key'.
+             rewrite N.eqb_refl in Ek. discriminate.
+        * fold (ucnt k u). destruct ((key' =? key) && kin k u); [reflexivity|].
+          apply (get_set_other dkeqb dkeqb_spec). intros H. injection H as H1 H2. subst k.
+          rewrite leqb_refl in E. discriminate.
+      + intros x Hx. rewrite (get_set_other dkeqb dkeqb_spec).
+        * apply Hfresh. now right.
+        * intros H. injection H as H. apply Hne. rewrite <- H. now apply in_map.
+  Qed.
+
+  Lemma find_app_fresh (f : row -> bool) rows r :
+    find f (rows ++ [r]) = match find f rows with Some x => Some x | None => if f r then Some r else None end.
+  Proof. induction rows as [|x rows IH]; cbn; [reflexivity|]. destruct (f x); [reflexivity|exact IH]. Qed.
+
+  Lemma find_none_notin (g : row -> N) h rows : ~ In h (map g rows) -> find (fun r => g r =? h) rows = None.
+  Proof.
+    induction rows as [|x rows IH]; intros H; cbn; [reflexivity|].
+    destruct (g x =? h) eqn:E; [apply N.eqb_eq in E; exfalso; apply H; left; assumption|].
+    apply IH. intros Hi. apply H. now right.
+  Qed.
+
+  Lemma nrows_with_app k rows r :
+    nrows_with k (rows ++ [r]) = nrows_with k rows + (if kin k (uwords (rdoc r)) then 1 else 0).
+  Proof.
+    unfold nrows_with. rewrite filter_app, app_length. cbn [filter].
+    destruct (kin k (uwords (rdoc r))); cbn [length]; lia.
+  Qed.
+
+  Theorem insert_keeps_sync rows s r :
+    Inv rows s -> ~ In (rh r) (map rh rows) -> ~ In (rk r) (map rk rows) -> all_short (uwords (rdoc r)) ->
+    Inv (rows ++ [r]) (ft_insert s r).
+  Proof.
+    intros HI Hh Hk Hs. unfold Fulltext.ft_insert.
+    pose proof (I_rc _ _ HI (rh r)) as Hrc. unfold find_h in Hrc. rewrite (find_none_notin rh _ _ Hh) in Hrc.
+    cbn in Hrc. rewrite Hrc. constructor; cbn [rc dc gc].
+    - intros h. unfold find_h. rewrite find_app_fresh. fold (find_h h rows).
+      destruct (N.eq_dec h (rh r)) as [->|Hn].
+      + rewrite (get_set_same N.eqb Neqb_spec). unfold find_h. rewrite (find_none_notin rh _ _ Hh).
+        rewrite N.eqb_refl. reflexivity.
+      + rewrite (get_set_other N.eqb Neqb_spec) by assumption. rewrite (I_rc _ _ HI).
+        destruct (find_h h rows); [reflexivity|].
+        destruct (rh r =? h) eqn:E; [apply N.eqb_eq in E; congruence|reflexivity].
+    - intros k key. rewrite fold_doc_ins; [|apply uwords_nodup|assumption|].
+      + unfold find_k. rewrite find_app_fresh. fold (find_k key rows).
+        destruct (key =? rk r) eqn:E.
+        * apply N.eqb_eq in E. subst key. unfold find_k. rewrite (find_none_notin rk _ _ Hk), N.eqb_refl.
+          cbn [andb]. pose proof (ucnt_kin k (uwords (rdoc r)) (uwords_pos _)) as Hu.
+          destruct (kin k (uwords (rdoc r))) eqn:K; [reflexivity|].
+          rewrite (I_dc _ _ HI). unfold find_k. rewrite (find_none_notin rk _ _ Hk).
+          destruct (ucnt k (uwords (rdoc r))); [destruct Hu; congruence|reflexivity].
+        * cbn [andb]. rewrite (I_dc _ _ HI). destruct (find_k key rows); [reflexivity|].
+          rewrite N.eqb_sym, E. reflexivity.
+      + intros e He. rewrite (I_dc _ _ HI). unfold find_k. now rewrite (find_none_notin rk _ _ Hk).
+    - intros k. rewrite fold_inc; [|apply uwords_nodup|assumption].
+      rewrite nrows_with_app, (I_gc _ _ HI).
+      destruct (kin k (uwords (rdoc r))).
+      + destruct (nrows_with k rows =? 0) eqn:E.
+        * apply N.eqb_eq in E. rewrite E. reflexivity.
+        * apply N.eqb_neq in E. destruct (nrows_with k rows + 1 =? 0) eqn:E2; [apply N.eqb_eq in E2; lia|reflexivity].
+      + rewrite N.add_0_r. reflexivity.
+  Qed.
+  Lemma Inv_empty : Inv [] (empty_st).
+  Proof. constructor; intros; reflexivity. Qed.
+
+  Lemma NoDup_snoc_inv {A} (l : list A) x : NoDup (l ++ [x]) -> NoDup l /\ ~ In x l.
+  Proof. intros H. apply NoDup_remove in H. now rewrite app_nil_r in H. Qed.
+
+  (* a freshly built index (the rows inserted one by one) is in sync *)
+  Theorem build_sync rows :
+    NoDup (map rh rows) -> NoDup (map rk rows) -> (forall r, In r rows -> all_short (uwords (rdoc r))) ->
+    Inv rows (fold_left ft_insert rows empty_st).
+  Proof.
+    induction rows as [|r rows IH] using rev_ind; intros Hh Hk Hs; [apply Inv_empty|].
+    rewrite fold_left_app. cbn [fold_left]. rewrite map_app in Hh, Hk. cbn [map] in Hh, Hk.
+    apply NoDup_snoc_inv in Hh. apply NoDup_snoc_inv in Hk. destruct Hh as [Hh1 Hh2]. destruct Hk as [Hk1 Hk2].
+    apply insert_keeps_sync; try assumption.
+    - apply IH; try assumption. intros x Hx. apply Hs. apply in_or_app. now left.
+    - apply Hs. apply in_or_app. right. now left.
+  Qed.
 End FTP.
+
+(* ---------- witnesses on the ASCII instance ---------- *)
+Definition w_alpha_beta : list N := [97;108;112;104;97;32;98;101;116;97].       (* "alpha beta" *)
+Definition w_r1 : row := mkrow 1 1 w_alpha_beta.
+
+(* the indexed path returns a row once per matching query word *)
+Lemma indexed_match_duplicates :
+  match_result ascii_is_char ascii_rlen key_bin true
+    (run_ops ascii_is_char ascii_rlen key_bin [OIns w_r1]) w_alpha_beta [w_r1] = [w_r1; w_r1].
+Proof. vm_compute. reflexivity. Qed.
+
+(* two rows whose hashed bytes coincide ("a"+"bcdef hello" = "ab"+"cdef hello"): the second row is never indexed *)
+Definition w_c1 : row := mkrow 1 1 [98;99;100;101;102;32;104;101;108;108;111].  (* pk "a",  doc "bcdef hello" *)
+Definition w_c2 : row := mkrow 1 2 [99;100;101;102;32;104;101;108;108;111].     (* pk "ab", doc "cdef hello" *)
+Lemma hash_collision_breaks_match :
+  let s := run_ops ascii_is_char ascii_rlen key_bin [OIns w_c1; OIns w_c2] in
+  let q := [99;100;101;102] in
+  shares_word ascii_is_char ascii_rlen key_bin q w_c2 = true /\
+  matches ascii_is_char ascii_rlen key_bin s q w_c2 = false.
+Proof. vm_compute. split; reflexivity. Qed.
+
+Lemma fulltext_nonvacuous :
+  map fst (tokenize ascii_is_char ascii_rlen [68;111;110;39;116;32;97;98;32;115;116;111;112;39;39;120;95;49])
+    = [[68;111;110;39;116]; [115;116;111;112]; [120;95;49]]              (* "Don't ab stop''x_1" *)
+  /\ ukeys ascii_is_char ascii_rlen key_ci [72;105;32;116;104;101;32;84;72;69] = [[84;72;69]]   (* "Hi the THE" *)
+  /\ matches ascii_is_char ascii_rlen key_bin (run_ops ascii_is_char ascii_rlen key_bin [OIns w_r1]) [98;101;116;97] w_r1 = true.
+Proof. vm_compute. repeat split; reflexivity. Qed.
 
 (* ---------- the sign of the relevance: any positive contribution function ---------- *)
 Section Relevance.
